@@ -108,6 +108,15 @@ let answer kw =
        | Some l ->
            "ok|" ^ flags ^ "|" ^ String.concat ";" (List.map tree_str l) ^ "|" ^
            String.concat ";" (List.map (fun t -> match uncum t with Some t' -> tree_str t' ^ "=" ^ string_of_int (int_of_z (tcost t')) | None -> "-") l))
+  | "FREETREE" ->
+      (* fuel root n nodes: what yaep_free_tree passes to parse_free (nodes, names) and how often it calls the terminal callback *)
+      let fuel = nat_of_int (next ()) in
+      let root = nat_of_int (next ()) in
+      let nn = next () in
+      let st = times nn read_dnode in
+      (match free_counts st fuel root with
+       | None -> "none"
+       | Some ((a, b), c) -> Printf.sprintf "%d %d %d" (int_of_nat a) (int_of_nat b) (int_of_nat c))
   | "API" ->
       (* n then n ops: slot kind args ; kind 0: set i x | 1: define gid code | 2: parse na inv | 3: errcode *)
       let n = next () in
@@ -184,7 +193,11 @@ let answer kw =
              String.concat " " (List.map (fun z -> string_of_int (int_of_z z)) r.s_trans)) rs))
   | _ -> "error unknown query " ^ kw
 
+exception Timeout
+let query_timeout = try int_of_string (Sys.getenv "ORACLE_QUERY_TIMEOUT") with _ -> 10
+
 let () =
+  Sys.set_signal Sys.sigalrm (Sys.Signal_handle (fun _ -> raise Timeout));
   try
     while true do
       let line = input_line stdin in
@@ -194,9 +207,13 @@ let () =
       | kw :: rest ->
           toks := Array.of_list (List.map int_of_string rest);
           pos := 0;
+          (* a query that exceeds the time limit is answered "none": the case is then not evaluated (and counted) *)
+          ignore (Unix.alarm query_timeout);
           let a = (try answer kw with
                    | Invalid_argument _ -> "error short query"
-                   | Stack_overflow -> "error stack overflow") in
+                   | Stack_overflow -> "error stack overflow"
+                   | Timeout -> "none") in
+          ignore (Unix.alarm 0);
           print_endline a
     done
   with End_of_file -> ()
